@@ -1033,23 +1033,28 @@ class CausalGraph(HasIdentifier, HasMetadata, CanDictSerialize, CanDictDeseriali
             meta=meta if meta is not None else original_node.meta,
         )
 
-        # copy inbound edges
-        for edge in self.get_edges(destination=original_node.identifier):
-            self.add_edge(
-                source=edge.source.identifier,
-                destination=new_node.identifier,
-                edge_type=edge.get_edge_type(),
-                meta=edge.meta,
-            )
+        try:
+            # copy inbound edges
+            for edge in self.get_edges(destination=original_node.identifier):
+                self.add_edge(
+                    source=edge.source.identifier,
+                    destination=new_node.identifier,
+                    edge_type=edge.get_edge_type(),
+                    meta=edge.meta,
+                )
 
-        # copy outbound edges
-        for edge in self.get_edges(source=original_node.identifier):
-            self.add_edge(
-                source=new_node.identifier,
-                destination=edge.destination.identifier,
-                edge_type=edge.get_edge_type(),
-                meta=edge.meta,
-            )
+            # copy outbound edges
+            for edge in self.get_edges(source=original_node.identifier):
+                self.add_edge(
+                    source=new_node.identifier,
+                    destination=edge.destination.identifier,
+                    edge_type=edge.get_edge_type(),
+                    meta=edge.meta,
+                )
+        except Exception:
+            # remove the new node (and any edges already copied to it) if an edge cannot be copied
+            self.delete_node(new_node.identifier)
+            raise
 
         # remove the original edge
         self.delete_node(original_node.identifier)
